@@ -658,6 +658,7 @@ func runLogProp(cfg logRunCfg) func(seed int64, tier string, outDir string) *res
 				}
 				if cfg.prop == "C05" {
 					runMixedCodecScenarios(xr, na, st, xf)
+					runHeadTwinScenarios(xr, na/2+1, st, xf)
 				}
 			}
 			res.Stats["forged_logs_joined"] = st.forged
